@@ -18,6 +18,10 @@ func (e *RunErr) Error() string { return e.Kind + ": " + e.Msg }
 
 func rerr(kind, msg string) *RunErr { return &RunErr{kind, msg} }
 
+// maxElems bounds container sizes in the reference: programs that grow data exponentially are skipped
+// (reported as unsupported), not compared.
+const maxElems = 1 << 16
+
 // errOrderDependent is panicked when a result would depend on map iteration order (recovered by Run: "unsupported").
 var errOrderDependent = &RunErr{"unsupported", "depends on map iteration order"}
 
@@ -372,9 +376,16 @@ func Binary(op string, a, b V) (V, *RunErr) {
 	case Str:
 		if op == "+" {
 			if y, ok := b.(Str); ok {
+				if len(x)+len(y) > maxElems*16 {
+					panic(errOrderDependent)
+				}
 				return x + y, nil
 			}
-			return x + Str(Text(b)), nil
+			t := Text(b)
+			if len(x)+len(t) > maxElems*16 {
+				panic(errOrderDependent)
+			}
+			return x + Str(t), nil
 		}
 		if y, ok := b.(Str); ok {
 			if r, ok := cmp(op, strings.Compare(string(x), string(y))); ok {
@@ -411,6 +422,9 @@ func Binary(op string, a, b V) (V, *RunErr) {
 	case *Array:
 		// P: + yields a fresh array. N: both operands must have the same mutability; the result is mutable.
 		if y, ok := b.(*Array); ok && op == "+" && x.Imm == y.Imm {
+			if x.N+y.N > maxElems {
+				panic(errOrderDependent) // runaway growth (e.g. a += a in a loop): outside the compared domain
+			}
 			return NewArray(append(append([]V{}, x.Elems()...), y.Elems()...), false), nil
 		}
 	}
